@@ -33,7 +33,7 @@ MaxNotes(ws) == Cardinality({i \in 1..Len(ws) : Toml(ws[i]) \/ ws[i] \in Unconst
 
 Judge(ln) ==
   IF ln.ev # "watcher" THEN {}
-  ELSE (IF ln.watches = 4 THEN {} ELSE {"X_WatchesNotEstablished"})
+  ELSE (IF ln.expect = -1 \/ ln.watches = ln.expect THEN {} ELSE {"X_WatchesNotEstablished"})
        \cup (IF ln.cancelled \/ ln.got >= MinNotes(ln.writes) THEN {} ELSE {"C19_Notified"})
        \cup (IF ln.got <= MaxNotes(ln.writes) THEN {} ELSE {"C19_NoneForOthers"})
        \* the stream ends - and the process is still there (a panic in the watcher's goroutines takes it down)
